@@ -295,7 +295,12 @@ MATCHERS = {"overlapping-sections-forward-loop": m_overlap,
 def run(tier):
     core.setup_psyclone_env()
     out = core.Outcome("C06", tier, "model_checking", matchers=MATCHERS)
-    fam = sem.TransFamily("C06", dom=DOM, fills=FILLS, live=LIVE, apps=apps)
+    dom, fills = DOM, FILLS
+    if tier != "quick":
+        dom = [("n", [0, 1, 2, 3, 4]), ("m", [1, 2, 3]), ("kout", [7, -2]),
+               ("t", [[1, 2], [-3, 1], [0, 1]])]
+        fills = [1, 2, 3, 4]
+    fam = sem.TransFamily("C06", dom=dom, fills=fills, live=LIVE, apps=apps)
     its = items(tier)
     results = sem.build_family(fam, its)
     cov = sem.judge_family(out, results, MATCHERS)
